@@ -27,7 +27,7 @@ TABLE = {
     "ElasticNetParamsBase": {"penalty": ">=0", "l1_ratio": "[0,1]", "tolerance": ">0", "max_iterations": ">=1"},  # hyperparams.rs `| Range |` table
     "LogisticRegressionParams": {"alpha": ">=0", "gradient_tolerance": ">0"},  # error.rs: "must be a positive, finite number" (alpha = 0 is the documented no-penalty setting)
     "TweedieRegressorParams": {"alpha": ">=0", "power": "<=0 | >=1"},  # "penalty should be positive"; power doc: 0, 1, (1,2), 2, 3
-    "SvmParams": {"solver_params.eps": ">=0", "c.Some.0.0": ">0", "c.Some.0.1": ">0", "nu.Some.0.0": "(0,1]"},  # error.rs strings
+    "SvmParams": {"solver_params.eps": ">=0", "c.Some.0.0": ">0", "c.Some.0.1": ">0", "nu.Some.0.0": "(0,1]", "nu.Some.0.1": ">0"},  # error.rs strings; the second component of `nu` is nu itself (classification) or the C of nu-SVR ("C value (default 1.)")
     "DecisionTreeParams": {"min_impurity_decrease": ">=eps"},  # "should be greater than zero"
     "GaussianNbParams": {"var_smoothing": ">=0"},  # hyperparams.rs `| Range |` table
     "MultinomialNbParams": {"alpha": ">=0"},  # hyperparams.rs `| Range |` table
@@ -51,7 +51,9 @@ RELATIONS = {
 # opaque fallible sub-checks (`?` on a call over parameters) that must be present
 OPAQUE = {
     "SvmParams": {"check_ref"},          # delegates to the Platt guard
-    "CountVectorizerParams": {"new"},    # SerdeRegex::new: compiles the tokenizer regex
+    # SerdeRegex::new compiles the tokenizer regex; the two state atoms reject a parameter set that was restored
+    # without its (unserialisable) tokenizer function - not a range of a hyperparameter value
+    "CountVectorizerParams": {"new", "state:tokenizer_deserialization_guard", "state:tokenizer_function"},
 }
 # interior mutation inside check_ref, allow-listed by symbol with a reason
 MUT_ALLOW = {
@@ -175,9 +177,20 @@ class Guard:
                     self.relations.add((lp, op, rp))
                     return Region.empty(self.integer)
                 raise Unclassified("comparison with unrecognised operands: %s" % Render(self.c).e(n))
+        if kk in ("Field", "Path") and (self.c.ty(n.get("t")) or "") == "bool":
+            # a boolean state flag of the builder (not a hyperparameter range): evaluated as "not raised", recorded
+            p = self.path_of(n)
+            if p is not None:
+                self.opaque.add("state:" + p)
+                return Region.empty(self.integer)
         if kk == "MethodCall":
             name = n["name"]
             p = self.path_of(n["recv"])
+            if p is not None and not n["args"] and name in ("is_none", "is_some"):
+                ty = self.c.ty(peel_refs(n["recv"]).get("t")) or ""
+                if "Option<" in ty and not any(x in ty for x in ("Option<f32>", "Option<f64>", "Option<usize>", "Option<u64>", "Option<F>", "Option<i32>", "Option<u32>")):
+                    self.opaque.add("state:" + p)
+                    return Region.empty(self.integer)
             if p is not None and not n["args"]:
                 node = peel_refs(n["recv"])
                 if name in ("is_negative", "is_sign_negative"):
@@ -498,13 +511,13 @@ def rule_range(ctx):
         fn = impls[builder]["check_ref"]
         key = fn_key(fn)
         if builder not in TABLE:
-            res.violate("%s : undocumented-builder" % key, "ParamGuard implementor %s has no row in the documented range table (new builder: read it once, fail closed)" % builder, fn_loc(fn))
+            res.undecided("%s : undocumented-builder" % key, "ParamGuard implementor %s has no row in the documented range table (new builder: read it once, fail closed)" % builder, fn_loc(fn))
             continue
         table = TABLE[builder]
         try:
             regions, rel, opaque, wit = analyse_check_ref(fn, builder, table)
         except Unclassified as e:
-            res.violate("%s : unclassified-guard" % key, "guard structure not understood (fail closed): %s" % e, fn_loc(fn))
+            res.undecided("%s : unclassified-guard" % key, "guard structure not understood (fail closed): %s" % e, fn_loc(fn))
             continue
         for p in sorted(regions):
             got, integer, ty = regions[p]
@@ -715,7 +728,7 @@ def rule_forge(ctx):
         a = adts.get((crate.name, ty))
         if a is None:
             # tuple / primitive checked types are not forgeable concerns; fail closed only when it is an ADT we cannot find
-            res.violate("%s : checked-type-not-found" % b, "checked type %s of %s not found among the crate's ADTs" % (ty, b), fn_loc(fn))
+            res.undecided("%s : checked-type-not-found" % b, "checked type %s of %s not found among the crate's ADTs" % (ty, b), fn_loc(fn))
             continue
         res.instance("%s -> %s : fields" % (b, ty.split("::")[-1]))
         pub_fields = [f["name"] for v in a["variants"] for f in v["fields"] if f["vis"] == "pub"]
